@@ -390,7 +390,7 @@ SUBCHECKS = [
                   "leave-callback-mutates-its-argument:append": 100, "leave-callback-mutates-its-argument:clear": 100,
                   "enter-returns:depth": 100, "enter-returns:falsy": 100, "callbacks-reused-from-another-tree": 100,
                   "tree-re-parented-in-place-after-a-first-traversal": 300, "raw-table-with-rows-in-any-order": 150, "edit:item": 60, "edit:copy-then-node.pid": 60,
-                  "handle:tree[i-n]": 100, "handle:tree[i:i+1][0]": 100, "handle:iteration": 100,
+                  "handle:tree[i-n]": 70, "handle:tree[i:i+1][0]": 70, "handle:iteration": 70,
                   "traversed-again-after-an-aborted-traversal": 300}),
     Sub("deep", deep_case, run_deep, quick=64, thorough=96, shards_quick=4,
         required={"limited-recursion": 8, "rows=2^8-or-2^16": 2, "deep:chain": 1, "deep:caterpillar": 1, "deep:caterpillar-leaves-numbered-last": 1,
